@@ -248,14 +248,15 @@ def oracle(sc, ctx, program):
     def factory():
         return bpm.run(sc, program).hugr
 
-    for hist, h in mutate.histories(factory, _DEPTH, "quick", kinds=_KINDS if _TIER == "quick" else None, pre=lambda g: mutate.observe(g, render=True)):
+    for hist, h in mutate.histories(factory, _DEPTH, "quick", kinds=None if _ALL_KINDS else _KINDS, pre=lambda g: mutate.observe(g, render=True)):
         tag = "+".join(m[0] for m in hist) or "built"
-        for sig, msg in check_hugr(h, tag, few_configs=bool(hist) and _TIER == "quick"):
+        for sig, msg in check_hugr(h, tag, few_configs=bool(hist)):
             out.append((sig, f"{msg} | history={hist} | program={program}"))
     return out
 
 
 _TIER = "quick"
+_ALL_KINDS = False  # thorough, second phase: every store mutation instead of one of each kind
 
 LADDER = {"quick": list(range(0, 19)) + [31, 32, 33], "thorough": list(range(0, 70)) + [127, 128, 129, 255, 256, 257]}
 
@@ -307,8 +308,9 @@ def check_ladder(case):
 
 
 def run(tier: str, seed: int) -> Result:
-    global _DEPTH, _TIER
+    global _DEPTH, _TIER, _ALL_KINDS
     _TIER = tier
+    _ALL_KINDS = False
     plan, _DEPTH = PLAN[tier]
     col = Collector()
     r = e2.explore(SCENARIOS, oracle, plan)
@@ -316,6 +318,21 @@ def run(tier: str, seed: int) -> Result:
         case["depth"] = _DEPTH
         case["tier"] = tier
         col.add(sig, msg, case)
+    if tier == "thorough":
+        # second phase: the quick plan's programs, each after *every* single store mutation
+        _ALL_KINDS = True
+        plan2, _DEPTH = PLAN["quick"]
+        r2 = e2.explore(SCENARIOS, oracle, plan2)
+        _ALL_KINDS = False
+        for sig, msg, case in r2.fails:
+            case["depth"] = _DEPTH
+            case["tier"] = tier
+            case["all_kinds"] = True
+            col.add(sig, msg, case)
+        r.states += r2.states
+        r.transitions += r2.transitions
+        r.complete_programs += r2.complete_programs
+        r.nontrivial += r2.nontrivial
     n_ladder = 0
     for case in ladder_cases(tier):
         n_ladder += 1
@@ -345,9 +362,10 @@ def run(tier: str, seed: int) -> Result:
 
 
 def replay(case) -> list[Violation]:
-    global _DEPTH, _TIER
+    global _DEPTH, _TIER, _ALL_KINDS
     _DEPTH = case.get("depth", 0)
     _TIER = case.get("tier", "quick")
+    _ALL_KINDS = bool(case.get("all_kinds"))
     if "ladder" in case:
         return [Violation(s, m, case) for s, m in check_ladder(case["ladder"])]
     sc = SCENARIOS[case["scenario"]]
